@@ -387,6 +387,33 @@ def rule_r5_lettype(text, lettypes, applied):
     return text
 
 
+def rule_r6_desugar_for(text, ordinals, applied):
+    """`for PAT in EXPR BODY` -> the definition of `for` in the Rust reference:
+    { let mut __itN = IntoIterator::into_iter(EXPR); loop { match __itN.next() { Some(PAT) => BODY, None => break, } } }
+    (needed where the body contains `break`: Verus' for-loop wrapper has no break support)"""
+    for n in sorted(ordinals, reverse=True):
+        st = _lex(text)
+        lps = loops_of(st)
+        if n > len(lps) or st[lps[n - 1][0]].text != 'for':
+            raise Undecided(f'lost anchor: loop #{n} is not a for loop (R6)')
+        kw, ob, cb_ = lps[n - 1]
+        q, d = kw + 1, 0
+        while not (st[q].kind == 'ident' and st[q].text == 'in' and d == 0):
+            if st[q].text in OPEN:
+                d += 1
+            elif st[q].text in CLOSE:
+                d -= 1
+            q += 1
+        pat = text[st[kw].end:st[q].start].strip()
+        expr = text[st[q].end:st[ob].start].strip()
+        body = text[st[ob].start:st[cb_].end]
+        new = (f'{{ let mut __it{n} = IntoIterator::into_iter({expr});\n'
+               f'loop {{ match __it{n}.next() {{ Some({pat}) => {body}\n None => break, }} }} }}')
+        text = text[:st[kw].start] + new + text[st[cb_].end:]
+        applied.append(f'R6(for#{n}->loop/next)')
+    return text
+
+
 def rule_r4_hoist(text, names, applied):
     """move items declared inside the body (enum NAME {..}) in front of the function"""
     hoisted = []
@@ -579,7 +606,7 @@ def new_fn_spec(attrs):
         'id': attrs['id'], 'file': attrs['file'], 'name': attrs['name'], 'container': attrs.get('in'),
         'props': [p for p in attrs.get('props', '').split(',') if p],
         'ret': None, 'requires': [], 'ensures': [],  # ensures: list of {'label','props','lines'}
-        'loops': {}, 'folds': {}, 'closures': {}, 'ats': [], 'hoist': [], 'lettypes': {}, 'breaktypes': {}, 'container_extra': [], 'attrs': [],
+        'loops': {}, 'folds': {}, 'closures': {}, 'ats': [], 'hoist': [], 'lettypes': {}, 'breaktypes': {}, 'desugar_for': [], 'container_extra': [], 'attrs': [],
         'recommends': [], 'decreases': [], 'stub_only': attrs.get('stub') == 'only', 'trusted_reason': attrs.get('trusted'),
     }
 
@@ -618,6 +645,12 @@ def parse_spec_file(path):
             elif kw == 'import':
                 flush_raw()
                 chunks.append(('import', pos[0]))
+            elif kw == 'include':
+                flush_raw()
+                for ch in parse_spec_file(os.path.join(os.path.dirname(os.path.dirname(path)) if os.path.basename(os.path.dirname(path)) == 'units' else os.path.dirname(path), pos[0])):
+                    if ch[0] == 'fn':
+                        raise Undecided(f'{path}:{ln}: included file must not define fn blocks')
+                    chunks.append(ch)
             elif kw == 'item':
                 flush_raw()
                 chunks.append(('item', {'file': attrs['file'], 'kind': attrs['kind'], 'name': attrs['name'],
@@ -672,6 +705,9 @@ def parse_spec_file(path):
         elif kw == 'hoist':
             cur['hoist'] += pos
             sect = None
+        elif kw == 'desugar-for':
+            cur['desugar_for'] += [int(x) for x in pos]
+            sect = None
         elif kw == 'breaktype':
             cur['breaktypes'][int(pos[0])] = attrs['type']
             sect = None
@@ -693,6 +729,23 @@ def parse_spec_file(path):
 # --------------------------------------------------------------------------------------------
 # unit generation
 # --------------------------------------------------------------------------------------------
+
+def publicize_fields(text):
+    """struct fields become `pub` (visibility is the one thing the extraction does not keep)"""
+    st = _lex(text)
+    ins = []
+    depth = 0
+    for i, t in enumerate(st):
+        if t.kind == 'punct' and t.text in OPEN:
+            depth += 1
+        elif t.kind == 'punct' and t.text in CLOSE:
+            depth -= 1
+        elif depth == 1 and t.kind == 'ident' and i + 1 < len(st) and st[i + 1].text == ':' and st[i - 1].text in ('{', ','):
+            ins.append(t.start)
+    for pos in reversed(ins):
+        text = text[:pos] + 'pub ' + text[pos:]
+    return text
+
 
 class Out:
     def __init__(self):
@@ -775,6 +828,7 @@ class Generator:
                 text, hoisted = rule_r4_hoist(text, spec['hoist'], applied)
             text = rule_r2_fold(text, spec['folds'], applied)
             text = rule_r1_break_value(text, applied, spec['breaktypes'])
+            text = rule_r6_desugar_for(text, spec['desugar_for'], applied)
             text = rule_r3_closures(text, spec['closures'], applied, None)
             text = rule_r5_lettype(text, spec['lettypes'], applied)
             segs = splice_annotations(text, spec)
@@ -848,6 +902,8 @@ class Generator:
     def emit_item(self, out, item):
         s = self.src(item['file'])
         text, line = s.find_item(item['kind'], item['name'])
+        if item['kind'] == 'struct':
+            text = publicize_fields(text)
         hdr = ''
         if item['derive']:
             hdr += f"#[derive({item['derive']})]\n"
